@@ -99,6 +99,12 @@ for nm, pat in [("hybrid-rerank", {"call": "rerank_with_gel"}), ("fusion", {"cal
     R.fclause("C20", "no-escape/quality:%s" % nm, "noescape", AQ, sites=pat)
 R.fclause("C20", "no-escape/sidecar-write", "noescape", "clematis/engine/snapshot.py:_write_sidecar_meta",
           sites={"call": "atomic_write_text"})
+# the helper's own guard covers only the dump + write; the timestamp is computed before it (time.gmtime of
+# SOURCE_DATE_EPOCH can raise OverflowError / OSError), so the *callers'* guards are what keeps a sidecar failure
+# from aborting the snapshot and with it the turn
+for _caller in ("write_snapshot", "_write_lines"):
+    R.fclause("C20", "no-escape/sidecar-call-in-" + _caller, "noescape", "clematis/engine/snapshot.py:" + _caller,
+              sites={"call": "_write_sidecar_meta"})
 
 # ---------------------------------------------------------------- C19: triple gate, wall budget and fail-soft of the compute step
 RF = "clematis/engine/orchestrator/core.py:_run_reflection_if_enabled"
